@@ -837,8 +837,11 @@ class MutableDict(Mutable, Dict[_KT, _VT]):
         self.changed()
 
     def update(self, *a: Any, **kw: _VT) -> None:
-        dict.update(self, *a, **kw)
-        self.changed()
+        try:
+            dict.update(self, *a, **kw)
+        finally:
+            # a failing iterable leaves the entries consumed so far
+            self.changed()
 
     def __ior__(self, other: Any) -> MutableDict[_KT, _VT]:  # type: ignore[override,misc] # noqa: E501
         self.update(other)
@@ -946,8 +949,11 @@ class MutableList(Mutable, List[_T]):
         self.changed()
 
     def extend(self, x: Iterable[_T]) -> None:
-        list.extend(self, x)
-        self.changed()
+        try:
+            list.extend(self, x)
+        finally:
+            # a failing iterable leaves the items consumed so far
+            self.changed()
 
     def __iadd__(self, x: Iterable[_T]) -> MutableList[_T]:  # type: ignore[override,misc] # noqa: E501
         self.extend(x)
@@ -1016,16 +1022,22 @@ class MutableSet(Mutable, Set[_T]):
     """
 
     def update(self, *arg: Iterable[_T]) -> None:
-        set.update(self, *arg)
-        self.changed()
+        try:
+            set.update(self, *arg)
+        finally:
+            # a failing iterable leaves the elements consumed so far
+            self.changed()
 
     def intersection_update(self, *arg: Iterable[Any]) -> None:
         set.intersection_update(self, *arg)
         self.changed()
 
     def difference_update(self, *arg: Iterable[Any]) -> None:
-        set.difference_update(self, *arg)
-        self.changed()
+        try:
+            set.difference_update(self, *arg)
+        finally:
+            # a failing iterable leaves the removals done so far
+            self.changed()
 
     def symmetric_difference_update(self, *arg: Iterable[_T]) -> None:
         set.symmetric_difference_update(self, *arg)
